@@ -150,6 +150,11 @@ func dumpLoadLeaf(x *drv.World, sc *engine.Scenario, cfg drv.Config, hist []mode
 
 // codecCheck: JSON and binary codecs over the boundary + walking-one alphabet.
 func codecCheck() (cases int, v *drv.Violation) {
+	defer func() {
+		if r := recover(); r != nil {
+			v = viol("codec", 0, "an entity codec call panicked: %v", r)
+		}
+	}()
 	vals := []uint32{0, 1, 2, 255, 256, 65535, 65536, 1<<31 - 1, 1 << 31, 1<<32 - 2, 1<<32 - 1}
 	for b := 0; b < 32; b++ {
 		vals = append(vals, 1<<b)
@@ -190,10 +195,20 @@ func codecCheck() (cases int, v *drv.Violation) {
 		}
 		for _, fill := range []byte{0, 0xFF, 0x5A} {
 			cases++
-			buf := bytes.Repeat([]byte{fill}, n)
-			var e ecs.Entity
-			if err := e.UnmarshalBinary(buf); err == nil {
-				return cases, viol("codec", 0, "UnmarshalBinary accepted %d bytes", n)
+			// a tight slice and one with spare capacity (a decoder must not read beyond len)
+			for _, spare := range []int{0, 16} {
+				buf := make([]byte, n, n+spare)
+				for i := range buf {
+					buf[i] = fill
+				}
+				var e ecs.Entity
+				var err error
+				if tryDo(func() { err = e.UnmarshalBinary(buf) }) {
+					return cases, viol("codec", 0, "UnmarshalBinary panicked on %d bytes of input instead of returning an error: %v", n, lastPanic)
+				}
+				if err == nil {
+					return cases, viol("codec", 0, "UnmarshalBinary accepted %d bytes (capacity %d)", n, n+spare)
+				}
 			}
 		}
 	}
